@@ -195,6 +195,47 @@ def entry_ctor(module):
     return [field_of[p] for p in params]
 
 
+def lin_of(v):
+    """linear form of an integer value"""
+    if v.lin is not None:
+        return v.lin
+    return [(atom(v.lean), v.ty == "nat", 1)], 0
+
+
+def lin_val(terms, const, nat):
+    """the integer value Σ coeff·atom + const, printed canonically; a `Nat` when `nat` (no
+    subtraction was involved, every atom is a `Nat`), else an `Int` with the `Nat` atoms cast"""
+    merged = []
+    for a, n, q in terms:
+        for i, (a2, n2, q2) in enumerate(merged):
+            if a2 == a:
+                merged[i] = (a, n, q + q2)
+                break
+        else:
+            merged.append((a, n, q))
+    merged = [(a, n, q) for a, n, q in merged if q != 0]
+    if nat and (const < 0 or any(q < 0 or not n for _, n, q in merged)):
+        nat = False
+    if not merged:
+        v = Val(str(const), "nat") if nat else Val(f"({const} : Int)", "int")
+        v.lin = ([], const)
+        return v
+    parts = []
+    for i, (a, n, q) in enumerate(merged):
+        x = a if (nat or not n) else f"({a} : Int)"
+        mag = x if abs(q) == 1 else f"{abs(q)} * {x}"
+        parts.append((("- " if q < 0 else "") if i == 0 else (" - " if q < 0 else " + ")) + mag)
+    if const:
+        parts.append((" - " if const < 0 else " + ") + str(abs(const)))
+    text = "".join(parts)
+    if len(merged) == 1 and merged[0][2] == 1 and not const and (nat or not merged[0][1]):
+        v = Val(merged[0][0], "nat" if nat else "int")
+    else:
+        v = Val(f"({text})", "nat" if nat else "int")
+    v.lin = (merged, const)
+    return v
+
+
 class Val:
     """a translated Python value.  Entries carry ownership (`fresh` constructed here, `moved` taken
     out of a list, `borrowed` still referenced from a list) and, when they name an element of a
@@ -203,10 +244,12 @@ class Val:
     def __init__(self, lean, ty, own=None, alias=None, src=None):
         self.lean, self.ty, self.own, self.alias, self.src = lean, ty, own, alias, src
         self.poisoned = False
+        self.lin = None        # integers: ([(atom text, atom is a Nat, coefficient)], constant) — see `lin_val`
 
     def clone(self, **kw):
         v = Val(self.lean, self.ty, self.own, self.alias, self.src)
         v.poisoned = self.poisoned
+        v.lin = self.lin
         for k, x in kw.items():
             setattr(v, k, x)
         return v
@@ -431,7 +474,7 @@ class Fn:
             if isinstance(e.value, bool):
                 return k(Val("true" if e.value else "false", "bool"), env)
             if isinstance(e.value, int):
-                return k(Val(str(e.value), "nat") if e.value >= 0 else Val(f"({e.value})", "int"), env)
+                return k(lin_val([], e.value, e.value >= 0), env)
             raise Unsupported(f"constant {e.value!r}")
         if isinstance(e, ast.Name):
             pl = self.place_of(e, env)
@@ -467,7 +510,10 @@ class Fn:
             if isinstance(e.op, ast.Not):
                 return self.ev(e.operand, env, lambda v, env2: k(Val(self.truth(v, neg=True), "bool"), env2))
             if isinstance(e.op, ast.USub):
-                return self.ev(e.operand, env, lambda v, env2: k(Val(f"(-{self.as_int(v)})", "int"), env2))
+                def kneg(v, env2):
+                    terms, c = lin_of(v)
+                    return k(lin_val([(a, n, -q) for a, n, q in terms], -c, False), env2)
+                return self.ev(e.operand, env, kneg)
         if isinstance(e, ast.BinOp):
             return self.ev_list([e.left, e.right], env, lambda vs, env2: k(self.binop(e, vs[0], vs[1]), env2))
         if isinstance(e, ast.BoolOp):
@@ -528,13 +574,23 @@ class Fn:
 
     def binop(self, e, a, b):
         op = e.op
-        if isinstance(op, (ast.Add, ast.Mult)):
-            sym = "+" if isinstance(op, ast.Add) else "*"
-            if a.ty == "nat" and b.ty == "nat":
-                return Val(f"({a.lean} {sym} {b.lean})", "nat")
-            return Val(f"({self.as_int(a)} {sym} {self.as_int(b)})", "int")
-        if isinstance(op, ast.Sub):
-            return Val(f"({self.as_int(a)} - {self.as_int(b)})", "int")
+        if isinstance(op, (ast.Add, ast.Sub, ast.Mult)):
+            # integer arithmetic is kept as a linear form and printed canonically (like terms
+            # collected, the constant last), so `1 + c`, `c + 1`, `c * 2 + 1 - c` … give one text
+            if a.ty not in ("nat", "int") or b.ty not in ("nat", "int"):
+                raise Unsupported(f"arithmetic on {a.ty} and {b.ty}")
+            (ta, ca), (tb, cb) = lin_of(a), lin_of(b)
+            nat = a.ty == "nat" and b.ty == "nat" and not isinstance(op, ast.Sub)
+            if isinstance(op, ast.Mult):
+                if not ta:
+                    return lin_val([(x, n, q * ca) for x, n, q in tb], cb * ca, nat)
+                if not tb:
+                    return lin_val([(x, n, q * cb) for x, n, q in ta], ca * cb, nat)
+                if nat:
+                    return Val(f"({a.lean} * {b.lean})", "nat")
+                return Val(f"({self.as_int(a)} * {self.as_int(b)})", "int")
+            sign = -1 if isinstance(op, ast.Sub) else 1
+            return lin_val(ta + [(x, n, sign * q) for x, n, q in tb], ca + sign * cb, nat)
         if isinstance(op, (ast.FloorDiv, ast.RShift)) and isinstance(e.right, ast.Constant) \
                 and isinstance(e.right.value, int) and not isinstance(e.right.value, bool):
             c = e.right.value
@@ -581,7 +637,9 @@ class Fn:
             sym = "=" if isinstance(op, ast.Eq) else "≠"
             return Val(f"decide ({a.lean} {sym} {b.lean})", "bool")
         if a.ty in ("nat", "int") and b.ty in ("nat", "int"):
-            sym = {ast.Lt: "<", ast.Gt: ">", ast.LtE: "≤", ast.GtE: "≥", ast.Eq: "=", ast.NotEq: "≠"}.get(type(op))
+            if isinstance(op, (ast.Gt, ast.GtE)):            # one spelling: `a > b` is `b < a`
+                a, b, op = b, a, (ast.Lt() if isinstance(op, ast.Gt) else ast.LtE())
+            sym = {ast.Lt: "<", ast.LtE: "≤", ast.Eq: "=", ast.NotEq: "≠"}.get(type(op))
             if sym is None:
                 raise Unsupported(f"comparison {type(op).__name__}")
             if a.ty == "nat" and b.ty == "nat":
